@@ -4,12 +4,25 @@ import json, subprocess, sys, os
 ROOT = os.path.dirname(os.path.dirname(os.path.dirname(os.path.abspath(__file__))))
 props = {json.loads(l)['id']: json.loads(l) for l in open(os.path.join(ROOT, 'properties.jsonl'))}
 base = open(os.path.join(ROOT, 'lib/seedtask/BENIGN.md')).read()
-for pid in sys.argv[1:]:
+import glob
+tag = ''
+args = sys.argv[1:]
+if args and args[0].startswith('-'):
+    tag = args[0][1:]; args = args[1:]
+names = {'': ('P', 'Q'), '2': ('R', 'S'), '3': ('T', 'U')}[tag]
+for pid in args:
     p = props[pid]
-    wt = '/tmp/benign-%s' % pid
+    wt = '/tmp/benign-%s%s' % (pid, tag)
     t = base.replace('/tmp/benign-C07', wt)
     blk = '  %s — %s\n  Statement: %s\n  Quantifier: %s\n  Anchored in: %s\n' % (pid, p['title'], p['statement'], p['quantifier']['text'], ', '.join(p['anchors']['files']))
     t = t.replace('  C07 —\n', blk).replace('"property": "C07"', '"property": "%s"' % pid)
+    if tag:
+        x, y = names
+        t = t.replace('(call them P and Q)', '(call them %s and %s)' % (x, y)).replace('{P,Q}', '{%s,%s}' % (x, y)).replace('Each of P and Q', 'Each of %s and %s' % (x, y)).replace('summary of P and Q', 'summary of %s and %s' % (x, y))
+        used = []
+        for d in sorted(glob.glob(os.path.join(ROOT, 'benign/%s-*/meta.json' % pid))):
+            used.append('- ' + str(json.load(open(d)).get('what_changed', ''))[:300].replace('\n', ' '))
+        t += "\nThis is a LATER round. Edits already made in earlier rounds — do something different in kind AND at a different site (other functions of the anchored files, their callers in other packages, the data tables/constants they use, assembly if any): e.g. change a type alias or integer width where it provably cannot matter, split a function in two, merge two branches, replace recursion by iteration or vice versa, reorder struct fields / declarations / switch cases, turn a method into a function, replace a closure by a named function, introduce an interface-preserving wrapper, move code between files of the package, change an error message text that the property does not mention, replace `x == 0 || y == 0` style conditions by De Morgan equivalents, table-driven rewrite of an if-chain:\n" + '\n'.join(used) + "\n"
     subprocess.run(['git', '-C', '/repo', 'worktree', 'add', '--detach', wt], capture_output=True)
     open(wt + '/TASK.md', 'w').write(t)
     print(wt)
